@@ -320,10 +320,15 @@ class Sim:
         except SimAbort:
             pass
         except BaseException as e:   # noqa
-            st.exc = e
-            self.thread_errors.append(
-                (st.tid, st.name, repr(e),
-                 ''.join(traceback.format_exception(type(e), e, e.__traceback__))))
+            # (while an aborted run is being unwound, SimAbort surfaces inside
+            # arbitrary code - e.g. in threading's own bootstrap of a thread that
+            # was just starting - and whatever that code raises in turn is an
+            # artefact of the unwinding, not an event of the explored execution)
+            if not self.aborting:
+                st.exc = e
+                self.thread_errors.append(
+                    (st.tid, st.name, repr(e),
+                     ''.join(traceback.format_exception(type(e), e, e.__traceback__))))
         finally:
             try:
                 self._thread_exit(st)
